@@ -180,71 +180,157 @@ def groupItems : Nat → Bytes → List (Nat × Bytes)
   | 0, _ => []
   | k + 1, d => if d.length < 5 then [] else (d.headD 0, octets d 1 4) :: groupItems k (d.drop 5)
 
-/-- The value of every field of a payload, by payload type name (`<CommandName>Payload`), in the order
-the harness prints them.  `xorKey` stands for the block operation the device applies to
-McKey_encrypted (`aes128_encrypt(McKEKey, ·)`, abstract here). -/
-def decode (unwrapKey : Bytes → Bytes) (ty : String) (p : Bytes) : List (String × Val) :=
+def decLinkCheckAns (p : Bytes) : List (String × Val) :=
   let f := field p
-  match ty with
-  | "LinkCheckAnsPayload" => [("margin", .n (f 0 8)), ("gateway_count", .n (f 8 8))]
-  | "LinkADRReqPayload" =>
-    [("data_rate", .n (f 4 4)), ("tx_power", .n (f 0 4)), ("channel_mask", .hex (octets p 1 2)),
+  [("margin", .n (f 0 8)), ("gateway_count", .n (f 8 8))]
+
+def decLinkADRReq (p : Bytes) : List (String × Val) :=
+  let f := field p
+  [("data_rate", .n (f 4 4)), ("tx_power", .n (f 0 4)), ("channel_mask", .hex (octets p 1 2)),
      ("redundancy", .n (f 24 8)), ("chmask_cntl", .n (f 28 3)), ("nb_trans", .n (f 24 4))]
-  | "DutyCycleReqPayload" =>
-    -- aggregated duty cycle = 1 / 2^MaxDutyCycle; as an IEEE-754 single: exponent 127 - MaxDutyCycle, mantissa 0
-    [("max_duty_cycle_raw", .n (f 0 4)), ("max_duty_cycle_bits", .n (2 ^ 23 * (127 - f 0 4)))]
-  | "RXParamSetupReqPayload" =>
-    [("dl_settings", .n (f 0 8)), ("rx1_dr_offset", .n (f 4 3)), ("rx2_data_rate", .n (f 0 4)),
+
+def decDutyCycleReq (p : Bytes) : List (String × Val) :=
+  let f := field p
+  -- aggregated duty cycle = 1 / 2^MaxDutyCycle; as an IEEE-754 single: exponent 127 - MaxDutyCycle, mantissa 0
+  [("max_duty_cycle_raw", .n (f 0 4)), ("max_duty_cycle_bits", .n (2 ^ 23 * (127 - f 0 4)))]
+
+def decRXParamSetupReq (p : Bytes) : List (String × Val) :=
+  let f := field p
+  [("dl_settings", .n (f 0 8)), ("rx1_dr_offset", .n (f 4 3)), ("rx2_data_rate", .n (f 0 4)),
      ("frequency", .n (100 * f 8 24))]
-  | "NewChannelReqPayload" =>
-    let minDr := f 32 4
+
+def decNewChannelReq (p : Bytes) : List (String × Val) :=
+  let f := field p
+  let minDr := f 32 4
     let maxDr := f 36 4
     let drr (v : Nat) : Val := if maxDr < minDr then .err "InvalidDataRateRange" else .n v
-    [("channel_index", .n (f 0 8)), ("frequency", .n (100 * f 8 24)),
+  [("channel_index", .n (f 0 8)), ("frequency", .n (100 * f 8 24)),
      ("data_rate_range", drr (f 32 8)), ("drr_max", drr maxDr), ("drr_min", drr minDr)]
-  | "RXTimingSetupReqPayload" => [("delay", .n (f 0 4))]
-  | "TXParamSetupReqPayload" =>
-    [("downlink_dwell_time", .b (f 5 1 = 1)), ("uplink_dwell_time", .b (f 4 1 = 1)),
+
+def decRXTimingSetupReq (p : Bytes) : List (String × Val) :=
+  let f := field p
+  [("delay", .n (f 0 4))]
+
+def decTXParamSetupReq (p : Bytes) : List (String × Val) :=
+  let f := field p
+  [("downlink_dwell_time", .b (f 5 1 = 1)), ("uplink_dwell_time", .b (f 4 1 = 1)),
      ("max_eirp", .n (eirpDbm.getD (f 0 4) 0))]
-  | "DlChannelReqPayload" => [("channel_index", .n (f 0 8)), ("frequency", .n (100 * f 8 24))]
-  | "DeviceTimeAnsPayload" =>
-    -- 32-bit unsigned seconds since the GPS epoch (little-endian), fractional second in 1/256 s steps
-    [("seconds", .n (f 0 32)), ("nano_seconds", .n (3906250 * f 32 8))]
-  | "LinkADRAnsPayload" =>
-    [("channel_mask_ack", .b (f 0 1 = 1)), ("data_rate_ack", .b (f 1 1 = 1)), ("powert_ack", .b (f 2 1 = 1)),
+
+def decDlChannelReq (p : Bytes) : List (String × Val) :=
+  let f := field p
+  [("channel_index", .n (f 0 8)), ("frequency", .n (100 * f 8 24))]
+
+def decDeviceTimeAns (p : Bytes) : List (String × Val) :=
+  let f := field p
+  -- 32-bit unsigned seconds since the GPS epoch (little-endian), fractional second in 1/256 s steps
+  [("seconds", .n (f 0 32)), ("nano_seconds", .n (3906250 * f 32 8))]
+
+def decLinkADRAns (p : Bytes) : List (String × Val) :=
+  let f := field p
+  [("channel_mask_ack", .b (f 0 1 = 1)), ("data_rate_ack", .b (f 1 1 = 1)), ("powert_ack", .b (f 2 1 = 1)),
      ("ack", .b (f 0 8 = 7))]
-  | "RXParamSetupAnsPayload" =>
-    [("channel_ack", .b (f 0 1 = 1)), ("rx2_data_rate_ack", .b (f 1 1 = 1)), ("rx1_dr_offset_ack", .b (f 2 1 = 1)),
+
+def decRXParamSetupAns (p : Bytes) : List (String × Val) :=
+  let f := field p
+  [("channel_ack", .b (f 0 1 = 1)), ("rx2_data_rate_ack", .b (f 1 1 = 1)), ("rx1_dr_offset_ack", .b (f 2 1 = 1)),
      ("ack", .b (f 0 8 = 7))]
-  | "DevStatusAnsPayload" => [("battery", .n (f 0 8)), ("margin", .i (signed 6 (f 8 6)))]
-  | "NewChannelAnsPayload" =>
-    [("channel_freq_ack", .b (f 0 1 = 1)), ("data_rate_range_ack", .b (f 1 1 = 1)), ("ack", .b (f 0 8 = 3))]
-  | "DlChannelAnsPayload" =>
-    [("channel_freq_ack", .b (f 0 1 = 1)), ("uplink_freq_ack", .b (f 1 1 = 1)), ("ack", .b (f 0 2 = 3))]
-  | "AdrBitChangeReqPayload" =>
-    [("adr_enable", if f 0 8 = 0 then .b false else if f 0 8 = 1 then .b true else .err "RFU")]
-  | "TxPeriodicityChangeReqPayload" =>
-    let v := f 0 8
-    [("periodicity", if v = 0 then .none else if v ≤ 10 then .n (periodicitySeconds.getD (v - 1) 0) else .err "RFU")]
-  | "TxFramesCtrlReqPayload" =>
-    let v := f 0 8
-    [("len", .n p.length),
+
+def decDevStatusAns (p : Bytes) : List (String × Val) :=
+  let f := field p
+  [("battery", .n (f 0 8)), ("margin", .i (signed 6 (f 8 6)))]
+
+def decNewChannelAns (p : Bytes) : List (String × Val) :=
+  let f := field p
+  [("channel_freq_ack", .b (f 0 1 = 1)), ("data_rate_range_ack", .b (f 1 1 = 1)), ("ack", .b (f 0 8 = 3))]
+
+def decDlChannelAns (p : Bytes) : List (String × Val) :=
+  let f := field p
+  [("channel_freq_ack", .b (f 0 1 = 1)), ("uplink_freq_ack", .b (f 1 1 = 1)), ("ack", .b (f 0 2 = 3))]
+
+def decAdrBitChangeReq (p : Bytes) : List (String × Val) :=
+  let f := field p
+  [("adr_enable", if f 0 8 = 0 then .b false else if f 0 8 = 1 then .b true else .err "RFU")]
+
+def decTxPeriodicityChangeReq (p : Bytes) : List (String × Val) :=
+  let f := field p
+  let v := f 0 8
+  [("periodicity", if v = 0 then .none else if v ≤ 10 then .n (periodicitySeconds.getD (v - 1) 0) else .err "RFU")]
+
+def decTxFramesCtrlReq (p : Bytes) : List (String × Val) :=
+  let f := field p
+  let v := f 0 8
+  [("len", .n p.length),
      ("frame_type_override", if v = 0 then .none else if v = 1 then .b false else if v = 2 then .b true else .err "RFU")]
-  | "EchoIncPayloadReqPayload" => [("len", .n p.length), ("payload", .hex p)]
-  | "EchoIncPayloadAnsPayload" => [("len", .n p.length), ("payload", .hex p)]
-  | "McGroupStatusReqPayload" => [("req_group_mask", .n (f 0 4))]
-  | "McGroupSetupReqPayload" =>
-    [("mc_group_id_header", .n (f 0 2)), ("mc_addr", .hex (octets p 1 4)),
+
+def decEchoIncPayloadReq (p : Bytes) : List (String × Val) :=
+  [("len", .n p.length), ("payload", .hex p)]
+
+def decEchoIncPayloadAns (p : Bytes) : List (String × Val) :=
+  [("len", .n p.length), ("payload", .hex p)]
+
+def decMcGroupStatusReq (p : Bytes) : List (String × Val) :=
+  let f := field p
+  [("req_group_mask", .n (f 0 4))]
+
+def decMcGroupSetupReq (unwrapKey : Bytes → Bytes) (p : Bytes) : List (String × Val) :=
+  let f := field p
+  [("mc_group_id_header", .n (f 0 2)), ("mc_addr", .hex (octets p 1 4)),
      ("mc_key_decrypted", .hex (unwrapKey (octets p 5 16))),
      ("min_mc_fcount", .n (leValue (octets p 21 4))), ("max_mc_fcount", .n (leValue (octets p 25 4)))]
-  | "McGroupDeleteReqPayload" => [("mc_group_id_header", .n (f 0 2))]
-  | "PackageVersionAnsPayload" => [("package_identifier", .n (f 0 8)), ("package_version", .n (f 8 8))]
-  | "McGroupStatusAnsPayload" =>
-    [("ans_group_mask", .n (f 0 4)), ("nb_total_groups", .n (f 4 3)),
+
+def decMcGroupDeleteReq (p : Bytes) : List (String × Val) :=
+  let f := field p
+  [("mc_group_id_header", .n (f 0 2))]
+
+def decPackageVersionAns (p : Bytes) : List (String × Val) :=
+  let f := field p
+  [("package_identifier", .n (f 0 8)), ("package_version", .n (f 8 8))]
+
+def decMcGroupStatusAns (p : Bytes) : List (String × Val) :=
+  let f := field p
+  [("ans_group_mask", .n (f 0 4)), ("nb_total_groups", .n (f 4 3)),
      ("len", .n (1 + 5 * bitsSet 4 (f 0 4))),
      ("items", .items (groupItems 4 (p.drop 1)))]
-  | "McGroupSetupAnsPayload" => [("mc_group_id_header", .n (f 0 2))]
-  | "McGroupDeleteAnsPayload" => [("mc_group_id_header", .n (f 0 2)), ("mc_group_undefined", .b (f 2 1 = 1))]
+
+def decMcGroupSetupAns (p : Bytes) : List (String × Val) :=
+  let f := field p
+  [("mc_group_id_header", .n (f 0 2))]
+
+def decMcGroupDeleteAns (p : Bytes) : List (String × Val) :=
+  let f := field p
+  [("mc_group_id_header", .n (f 0 2)), ("mc_group_undefined", .b (f 2 1 = 1))]
+
+/-- The value of every field of a payload, by payload type name (`<CommandName>Payload`), in the order
+the harness prints them.  `unwrapKey` stands for the block operation the device applies to
+McKey_encrypted (`aes128_encrypt(McKEKey, ·)`, abstract here). -/
+def decode (unwrapKey : Bytes → Bytes) (ty : String) (p : Bytes) : List (String × Val) :=
+  match ty with
+  | "LinkCheckAnsPayload" => decLinkCheckAns p
+  | "LinkADRReqPayload" => decLinkADRReq p
+  | "DutyCycleReqPayload" => decDutyCycleReq p
+  | "RXParamSetupReqPayload" => decRXParamSetupReq p
+  | "NewChannelReqPayload" => decNewChannelReq p
+  | "RXTimingSetupReqPayload" => decRXTimingSetupReq p
+  | "TXParamSetupReqPayload" => decTXParamSetupReq p
+  | "DlChannelReqPayload" => decDlChannelReq p
+  | "DeviceTimeAnsPayload" => decDeviceTimeAns p
+  | "LinkADRAnsPayload" => decLinkADRAns p
+  | "RXParamSetupAnsPayload" => decRXParamSetupAns p
+  | "DevStatusAnsPayload" => decDevStatusAns p
+  | "NewChannelAnsPayload" => decNewChannelAns p
+  | "DlChannelAnsPayload" => decDlChannelAns p
+  | "AdrBitChangeReqPayload" => decAdrBitChangeReq p
+  | "TxPeriodicityChangeReqPayload" => decTxPeriodicityChangeReq p
+  | "TxFramesCtrlReqPayload" => decTxFramesCtrlReq p
+  | "EchoIncPayloadReqPayload" => decEchoIncPayloadReq p
+  | "EchoIncPayloadAnsPayload" => decEchoIncPayloadAns p
+  | "McGroupStatusReqPayload" => decMcGroupStatusReq p
+  | "McGroupSetupReqPayload" => decMcGroupSetupReq unwrapKey p
+  | "McGroupDeleteReqPayload" => decMcGroupDeleteReq p
+  | "PackageVersionAnsPayload" => decPackageVersionAns p
+  | "McGroupStatusAnsPayload" => decMcGroupStatusAns p
+  | "McGroupSetupAnsPayload" => decMcGroupSetupAns p
+  | "McGroupDeleteAnsPayload" => decMcGroupDeleteAns p
   | _ => []
 
 /-- the checked constructors `Payload::new(data)`: a view of exactly the command's payload when `data`
@@ -274,8 +360,8 @@ def toLe : Nat → Nat → Bytes
   | 0, _ => []
   | n + 1, v => (v % 256) :: toLe n (v / 256)
 
-/-- replace the `w`-bit field at bit `lo` of `N` by `v mod 2^w`; every other bit of `N` is kept -/
-def setField (N lo w v : Nat) : Nat := N - (N / 2 ^ lo % 2 ^ w) * 2 ^ lo + (v % 2 ^ w) * 2 ^ lo
+/-- replace the `w`-bit field at bit `lo` of `N` by `v mod 2^w`: the bits below `lo` and the bits from `lo + w` up are kept -/
+def setField (N lo w v : Nat) : Nat := N % 2 ^ lo + 2 ^ lo * (v % 2 ^ w + 2 ^ w * (N / 2 ^ (lo + w)))
 
 def setFieldBytes (p : Bytes) (lo w v : Nat) : Bytes := toLe p.length (setField (leValue p) lo w v)
 
@@ -294,35 +380,45 @@ inductive Policy where
   | mask
   deriving Repr, DecidableEq
 
-/-- (command, setter, first bit, width, policy) for every setter that writes one numeric/octet-string field -/
-def fieldSetters : List (String × String × Nat × Nat × Policy) := [
-  ("LinkCheckAns", "set_margin", 0, 8, .mask), ("LinkCheckAns", "set_gateway_count", 8, 8, .mask),
-  ("LinkADRReq", "set_data_rate", 4, 4, .refuse "InvalidDataRate"), ("LinkADRReq", "set_tx_power", 0, 4, .refuse "InvalidTxPower"),
-  ("LinkADRReq", "set_channel_mask", 8, 16, .mask), ("LinkADRReq", "set_redundancy", 24, 8, .mask),
-  ("LinkADRAns", "set_channel_mask_ack", 0, 1, .mask), ("LinkADRAns", "set_data_rate_ack", 1, 1, .mask),
-  ("LinkADRAns", "set_tx_power_ack", 2, 1, .mask),
-  ("DutyCycleReq", "set_max_duty_cycle", 0, 4, .refuse "MaxDutyCycleOutOfRange"),
-  ("RXParamSetupReq", "set_dl_settings", 0, 8, .mask), ("RXParamSetupReq", "set_frequency", 8, 24, .mask),
-  ("RXParamSetupAns", "set_channel_ack", 0, 1, .mask), ("RXParamSetupAns", "set_rx2_data_rate_ack", 1, 1, .mask),
-  ("RXParamSetupAns", "set_rx1_data_rate_offset_ack", 2, 1, .mask),
-  ("DevStatusAns", "set_battery", 0, 8, .mask),
-  ("NewChannelReq", "set_channel_index", 0, 8, .mask), ("NewChannelReq", "set_frequency", 8, 24, .mask),
-  ("NewChannelReq", "set_data_rate_range", 32, 8, .mask),
-  ("NewChannelAns", "set_channel_frequency_ack", 0, 1, .mask), ("NewChannelAns", "set_data_rate_range_ack", 1, 1, .mask),
-  ("RXTimingSetupReq", "set_delay", 0, 4, .refuse "DelayOutOfRange"),
-  ("TXParamSetupReq", "set_downlink_dwell_time", 5, 1, .mask), ("TXParamSetupReq", "set_uplink_dwell_time", 4, 1, .mask),
-  ("TXParamSetupReq", "set_max_eirp", 0, 4, .refuse "MaxEirpOutOfRange"),
-  ("DlChannelReq", "set_channel_index", 0, 8, .mask), ("DlChannelReq", "set_frequency", 8, 24, .mask),
-  ("DlChannelAns", "set_channel_frequency_ack", 0, 1, .mask), ("DlChannelAns", "set_uplink_frequency_exists_ack", 1, 1, .mask),
-  ("DeviceTimeAns", "set_seconds", 0, 32, .mask),
-  ("DutVersionsAns", "set_versions_raw", 0, 96, .mask), ("RxAppCntAns", "set_rx_app_cnt", 0, 16, .mask),
-  ("PackageVersionAns", "package_identifier", 0, 8, .mask), ("PackageVersionAns", "package_version", 8, 8, .mask),
-  ("McGroupStatusReq", "req_group_mask", 0, 4, .mask),
-  ("McGroupSetupReq", "mc_group_id_header", 0, 8, .mask), ("McGroupSetupReq", "mc_addr", 8, 32, .mask),
-  ("McGroupSetupReq", "min_mc_fcount", 168, 32, .mask), ("McGroupSetupReq", "max_mc_fcount", 200, 32, .mask),
-  ("McGroupSetupAns", "mc_group_id_header", 0, 2, .mask), ("McGroupDeleteReq", "mc_group_id_header", 0, 2, .mask),
-  ("McGroupDeleteAns", "mc_group_id_header", 0, 2, .mask), ("McGroupDeleteAns", "mc_group_undefined", 2, 1, .mask),
-  ("McGroupStatusAns", "nb_total_groups", 4, 3, .mask)]
+/-- (setter, first bit, width, policy) for every setter of a command that writes one numeric / octet-string field -/
+def fieldSetters : String → List (String × Nat × Nat × Policy)
+  | "LinkCheckAns" => [("set_margin", 0, 8, .mask), ("set_gateway_count", 8, 8, .mask)]
+  | "LinkADRReq" => [("set_data_rate", 4, 4, .refuse "InvalidDataRate"), ("set_tx_power", 0, 4, .refuse "InvalidTxPower"), ("set_channel_mask", 8, 16, .mask), ("set_redundancy", 24, 8, .mask)]
+  | "LinkADRAns" => [("set_channel_mask_ack", 0, 1, .mask), ("set_data_rate_ack", 1, 1, .mask), ("set_tx_power_ack", 2, 1, .mask)]
+  | "DutyCycleReq" => [("set_max_duty_cycle", 0, 4, .refuse "MaxDutyCycleOutOfRange")]
+  | "RXParamSetupReq" => [("set_dl_settings", 0, 8, .mask), ("set_frequency", 8, 24, .mask)]
+  | "RXParamSetupAns" => [("set_channel_ack", 0, 1, .mask), ("set_rx2_data_rate_ack", 1, 1, .mask), ("set_rx1_data_rate_offset_ack", 2, 1, .mask)]
+  | "DevStatusAns" => [("set_battery", 0, 8, .mask)]
+  | "NewChannelReq" => [("set_channel_index", 0, 8, .mask), ("set_frequency", 8, 24, .mask), ("set_data_rate_range", 32, 8, .mask)]
+  | "NewChannelAns" => [("set_channel_frequency_ack", 0, 1, .mask), ("set_data_rate_range_ack", 1, 1, .mask)]
+  | "RXTimingSetupReq" => [("set_delay", 0, 4, .refuse "DelayOutOfRange")]
+  | "TXParamSetupReq" => [("set_downlink_dwell_time", 5, 1, .mask), ("set_uplink_dwell_time", 4, 1, .mask), ("set_max_eirp", 0, 4, .refuse "MaxEirpOutOfRange")]
+  | "DlChannelReq" => [("set_channel_index", 0, 8, .mask), ("set_frequency", 8, 24, .mask)]
+  | "DlChannelAns" => [("set_channel_frequency_ack", 0, 1, .mask), ("set_uplink_frequency_exists_ack", 1, 1, .mask)]
+  | "DeviceTimeAns" => [("set_seconds", 0, 32, .mask)]
+  | "DutVersionsAns" => [("set_versions_raw", 0, 96, .mask)]
+  | "RxAppCntAns" => [("set_rx_app_cnt", 0, 16, .mask)]
+  | "PackageVersionAns" => [("package_identifier", 0, 8, .mask), ("package_version", 8, 8, .mask)]
+  | "McGroupStatusReq" => [("req_group_mask", 0, 4, .mask)]
+  | "McGroupSetupReq" => [("mc_group_id_header", 0, 8, .mask), ("mc_addr", 8, 32, .mask), ("min_mc_fcount", 168, 32, .mask), ("max_mc_fcount", 200, 32, .mask)]
+  | "McGroupSetupAns" => [("mc_group_id_header", 0, 2, .mask)]
+  | "McGroupDeleteReq" => [("mc_group_id_header", 0, 2, .mask)]
+  | "McGroupDeleteAns" => [("mc_group_id_header", 0, 2, .mask), ("mc_group_undefined", 2, 1, .mask)]
+  | "McGroupStatusAns" => [("nb_total_groups", 4, 3, .mask)]
+  | _ => []
+
+/-- a setter that writes the single field `[lo, lo + w)`: numeric argument or octet string (little-endian value) -/
+def applyField (lo w : Nat) (pol : Policy) (p : Bytes) (a : Arg) : Option (Option String × Bytes) :=
+  let v? : Option Nat := match a with
+    | .n v => some v
+    | .bytes b => some (leValue b)
+    | _ => none
+  match v? with
+  | none => none
+  | some v =>
+    match pol with
+    | .mask => some (none, setFieldBytes p lo w v)
+    | .refuse e => if v < 2 ^ w then some (none, setFieldBytes p lo w v) else some (some e, p)
 
 /-- one setter call on the payload `p` of command `name`: the outcome (`none` = accepted, `some e` = refused)
 and the payload afterwards; `wrapKey` is the block operation the server applies to the McKey
@@ -347,20 +443,9 @@ def applySetter (wrapKey : Bytes → Bytes) (name : String) (p : Bytes) (setter 
     if id ≥ 4 ∨ field p id 1 = 1 then some (some "InvalidIndex", p)
     else some (none, setFieldBytes p id 1 1 ++ (id :: addr))
   | _, _, _ =>
-    match fieldSetters.find? (fun s => s.1 == name && s.2.1 == setter) with
+    match (fieldSetters name).find? (fun s => s.1 == setter) with
     | none => none
-    | some (_, _, lo, w, pol) =>
-      let p := if name = "McGroupStatusAns" ∧ p = [] then [0] else p
-      let v? : Option Nat := match a with
-        | .n v => some v
-        | .bytes b => some (leValue b)
-        | _ => none
-      match v? with
-      | none => none
-      | some v =>
-        match pol with
-        | .mask => some (none, setFieldBytes p lo w v)
-        | .refuse e => if v < 2 ^ w then some (none, setFieldBytes p lo w v) else some (some e, p)
+    | some (_, lo, w, pol) => applyField lo w pol (if name = "McGroupStatusAns" ∧ p = [] then [0] else p) a
 
 /-- the payload of a freshly created command: all zero (`n` octets; the two growing answers start empty,
 the McGroupStatusAns status octet appears with the first setter and is part of every built answer) -/
